@@ -17,6 +17,16 @@ ATOMS = ["a", "b"]
 ASSUMPTIONS = ["clingo enumerates exactly the stable models of the ground program incl. backend rules (solver contract)",
                "atom table lookups (symbolic_atoms[...]) as recorded from the real run"]
 
+def grid_cases(seed, tier):
+    """the full operator-pair grid (every composition of two operator shapes incl. n-fold variants), three
+    formulas per program; thorough adds a sample of triples"""
+    r = random.Random(seed)
+    forms = gen.pair_grid(ATOMS)
+    if tier != "quick":
+        forms += gen.triple_sample(r, ATOMS, 1500)
+    r.shuffle(forms)
+    return [(forms[i:i + 3], ATOMS) for i in range(0, len(forms), 3)]
+
 def gen_cases(seed, n, depth):
     r = random.Random(seed)
     cases = []
@@ -48,10 +58,10 @@ def _corr_chunk(args):
     return tot, dis
 
 def correspondence(ctx):
-    n = 160 if ctx.tier == "quick" else 1600
+    n = 60 if ctx.tier == "quick" else 1200
     H = 3
     depth = 3 if ctx.tier == "quick" else 4
-    cases = corpus_cases() + gen_cases(ctx.seed * 31 + 3, n, depth)
+    cases = corpus_cases() + grid_cases(ctx.seed, ctx.tier) + gen_cases(ctx.seed * 31 + 3, n, depth)
     work = [(ctx.seed + j, c, H) for j, c in enumerate(par.chunks(cases, ctx.jobs * 2))]
     tot = {"pairs": 0, "equations_evaluated": 0, "horizons": 0, "programs": 0}
     dis = []
@@ -87,10 +97,10 @@ def _search_chunk(args):
     return oracles.compare_witness(cases, H, "tel", style_seed=seed)
 
 def search(ctx, deep):
-    n = (120 if ctx.tier == "quick" else 1500) * (3 if deep else 1)
+    n = (60 if ctx.tier == "quick" else 1200) * (3 if deep else 1)
     depth = 3 if ctx.tier == "quick" else 4
     H = 3
-    cases = corpus_cases() + gen_cases(ctx.seed * 77 + 5, n, depth)
+    cases = corpus_cases() + grid_cases(ctx.seed + 1, ctx.tier) + gen_cases(ctx.seed * 77 + 5, n, depth)
     # inputs on which the model and the implementation disagreed are tried first
     hinted = [(d["forms"], ATOMS) for d in getattr(ctx, "hints", []) if "forms" in d][:50]
     cases = hinted + cases
